@@ -10,6 +10,8 @@ CONSTANTS
   MinUnits = 0
   MaxDepth = 8
   MaxActs = 1000
+  MaxNL = 1000
+  MaxLines = 1000
   Signs = {"-", "+"}
   AllowCall = TRUE
   AllowList = TRUE
